@@ -2,7 +2,8 @@
    Proof mode:   shape only.  operator()(i,j) is a contract stub: requires i < rows && j < cols (the accessor
                  precondition; the three storage classes are proved to implement it in the storage units), returns a
                  fresh cell.  Element contents are not modelled, so every clause about entries is bounded.
-   Bounded mode: executable, MAT_B x MAT_B cells; resize keeps the cells that existed and zero-fills the new ones
+   Bounded mode: executable, MAT_B x MAT_B cells in one flat array (CBMC 6.11 mis-reads a pointer into a 2-D array member
+                 under a symbolic row index, found while building C05: flat storage avoids it); resize keeps the cells that existed and zero-fills the new ones
                  (the behaviour of all three storage classes); an access outside the current shape is an assertion. */
 #ifndef VERIF_MAT_H
 #define VERIF_MAT_H
@@ -12,17 +13,17 @@
 #endif
 #ifdef VERIF_MODE_BOUNDED
 #define MAT_DECL(T, M) \
-  typedef struct M { unsigned long rows, cols; T d[MAT_B][MAT_B]; } M; \
+  typedef struct M { unsigned long rows, cols; T d[MAT_B * MAT_B]; } M; \
   static inline unsigned long M##__getNumberOfRows(const M *m) { return m->rows; } \
   static inline unsigned long M##__getNumberOfColumns(const M *m) { return m->cols; } \
   static inline T *M##__op_call(const M *m, unsigned long i, unsigned long j) { \
     __CPROVER_assert(i < m->rows && j < m->cols, "matrix accessor precondition: index inside the current shape"); \
-    __CPROVER_assume(i < m->rows && j < m->cols); return (T*)&m->d[i][j]; } \
+    __CPROVER_assume(i < m->rows && j < m->cols); return (T*)&m->d[i * MAT_B + j]; } \
   static inline void M##__resize(M *m, unsigned long r, unsigned long c) { \
     __CPROVER_assert(r <= MAT_B && c <= MAT_B, "verif_model_bound: matrix larger than the bounded model"); __CPROVER_assume(r <= MAT_B && c <= MAT_B); \
-    for (unsigned long i = 0; i < MAT_B; ++i) for (unsigned long j = 0; j < MAT_B; ++j) if (!(i < m->rows && j < m->cols) || !(i < r && j < c)) m->d[i][j] = 0; \
+    for (unsigned long i = 0; i < MAT_B; ++i) for (unsigned long j = 0; j < MAT_B; ++j) if (!(i < m->rows && j < m->cols) || !(i < r && j < c)) m->d[i * MAT_B + j] = 0; \
     m->rows = r; m->cols = c; } \
-  static inline void M##__ctor_0(M *m) { m->rows = 0; m->cols = 0; for (unsigned long i = 0; i < MAT_B; ++i) for (unsigned long j = 0; j < MAT_B; ++j) m->d[i][j] = 0; } \
+  static inline void M##__ctor_0(M *m) { m->rows = 0; m->cols = 0; for (unsigned long i = 0; i < MAT_B; ++i) for (unsigned long j = 0; j < MAT_B; ++j) m->d[i * MAT_B + j] = 0; } \
   static inline void M##__ctor_2(M *m, unsigned long r, unsigned long c) { M##__ctor_0(m); M##__resize(m, r, c); } \
   static inline void M##__ctor_copy(M *m, const M *o) { *m = *o; } \
   static inline M *M##__op_assign(M *m, const M *o) { *m = *o; return m; }
@@ -44,5 +45,7 @@
   static inline void M##__ctor_copy(M *m, const M *o) { *m = *o; } \
   static inline M *M##__op_assign(M *m, const M *o) { *m = *o; return m; }
 #endif
+#define MD(m, i, j) ((m).d[(i) * MAT_B + (j)])
+#define MDP(p, i, j) ((p)->d[(i) * MAT_B + (j)])
 #define MAT_FRESH(m) __CPROVER_is_fresh(m, sizeof(*(m)))
 #endif
